@@ -368,6 +368,13 @@ func (e *execState) directOracles(bo *blockObs) {
 		if pa.Status == StStandby && a.Status == StStandby && a.StartNs <= t {
 			V("C08", "lifecycle.late", "open", fmt.Sprintf("auction %d still waiting at %d although its start %d has passed", a.ID, t, a.StartNs))
 		}
+		if pa.Status == StVesting && a.Status == StVesting && len(a.Vesting) > 0 {
+			var lastRel int64
+			fmt.Sscanf(a.Vesting[len(a.Vesting)-1], "%d:", &lastRel)
+			if lastRel <= t {
+				V("C08", "lifecycle.late", "finish", fmt.Sprintf("auction %d still vesting at %d although its last release time %d has passed", a.ID, t, lastRel))
+			}
+		}
 		if pa.Status == StStarted && a.Status == StStarted && len(a.EndTimes) == len(pa.EndTimes) && pa.EndTimes[len(pa.EndTimes)-1] <= t {
 			V("C08", "lifecycle.late", "settle", fmt.Sprintf("auction %d neither settled nor extended at %d although its end %d has passed", a.ID, t, pa.EndTimes[len(pa.EndTimes)-1]))
 		}
